@@ -13,6 +13,7 @@ package main
 // summarised (ok=false).
 
 import (
+	"fmt"
 	"go/types"
 	"sort"
 	"strings"
@@ -184,12 +185,14 @@ func foldCond(t *term) int {
 }
 
 type flattener struct {
-	scope    func(*ssa.Function) bool
-	p        *Program
-	maxPaths int
-	maxDepth int
-	out      []fpath
-	fail     string
+	recSeq    int
+	recFields map[string]*term
+	scope     func(*ssa.Function) bool
+	p         *Program
+	maxPaths  int
+	maxDepth  int
+	out       []fpath
+	fail      string
 }
 
 // flatten summarises f; bind gives terms for (some of) its parameters.
@@ -262,6 +265,9 @@ func (fl *flattener) runFrom(f *ssa.Function, start *ssa.BasicBlock, bind map[ss
 			for k, v := range env {
 				e.env[k] = v
 			}
+			// value records returned by expanded helpers: their fields read back (names are unique per
+			// expanded helper path, so one table per summary is enough; callees expanded later see it too)
+			e.recFields = fl.recFields
 			return e
 		}
 		if start == 0 && pred != nil {
@@ -337,6 +343,54 @@ func (fl *flattener) runFrom(f *ssa.Function, start *ssa.BasicBlock, bind map[ss
 					if sp.panics {
 						out = append(out, fpath{pc: append(append([]string{}, pc...), sp.pc...), panics: true})
 						continue
+					}
+					// a helper that returns a record by value (a composite literal of its own): the record gets
+					// a name of its own in the caller, and its fields are what the helper stored
+					if len(sp.results) == 1 && sp.results[0].op == "sym" && (strings.HasPrefix(sp.results[0].name, "local:") || strings.HasPrefix(sp.results[0].name, "zero:")) {
+						if _, isStruct := in.Type().Underlying().(*types.Struct); isStruct {
+							fl.recSeq++
+							old, nw := sp.results[0].name, fmt.Sprintf("rec:%s#%d", g.Name(), fl.recSeq)
+							ren := func(t *term) *term {
+								return mapSyms(t, func(n string) string {
+									if n == old || strings.HasPrefix(n, old+".") {
+										return nw + strings.TrimPrefix(n, old)
+									}
+									return n
+								})
+							}
+							var effs []effect
+							for _, ef := range sp.effects {
+								pth := ef.path
+								if pth == old || strings.HasPrefix(pth, old+".") {
+									pth = nw + strings.TrimPrefix(pth, old)
+								}
+								effs = append(effs, effect{pth, ren(ef.val)})
+								if strings.HasPrefix(pth, nw+".") {
+									if fl.recFields == nil {
+										fl.recFields = map[string]*term{}
+									}
+									fl.recFields[pth] = ren(ef.val)
+								}
+							}
+							// fields the literal does not mention are zero
+							if st, ok := in.Type().Underlying().(*types.Struct); ok {
+								for i := 0; i < st.NumFields(); i++ {
+									k := nw + "." + st.Field(i).Name()
+									if fl.recFields == nil {
+										fl.recFields = map[string]*term{}
+									}
+									if _, has := fl.recFields[k]; !has {
+										switch {
+										case isBoolType(st.Field(i).Type()):
+											fl.recFields[k] = S("false")
+										case isIntType(st.Field(i).Type()):
+											fl.recFields[k] = K(0)
+										}
+									}
+								}
+							}
+							sp = fpath{pc: sp.pc, results: []*term{S(nw)}, effects: effs}
+						}
 					}
 					eff2 := append(append([]effect{}, eff...), sp.effects...)
 					env2 := copyEnv(env)
